@@ -7,6 +7,7 @@ import random
 
 import common
 from common import cps
+from props import c19_proxy
 
 ID = "C19"
 LEAN_MODEL_TARGETS = ["drv_c19"]
@@ -15,10 +16,10 @@ AUDIT_FILES = ["PyroModel/Uri.lean", "PyroModel/Gen/C19.lean", "PyroProofs/UriLe
                "PyroProofs/UriParse.lean", "PyroProps/C19.lean"]
 THEOREMS = ["Pyro.C19.C19_parse_valid", "Pyro.C19.C19_reparse", "Pyro.C19.C19_roundtrip",
             "Pyro.C19.C19_fixpoint", "Pyro.C19.C19_text_injective", "Pyro.C19.C19_eq_hash",
-            "Pyro.C19.C19_unequal_locations", "Pyro.C19.C19_transport", "Pyro.C19.C19_int_roundtrip",
+            "Pyro.C19.C19_unequal_locations", "Pyro.C19.C19_transport", "Pyro.C19.C19_proxy_history", "Pyro.C19.C19_int_roundtrip",
             "Pyro.C19.C19_roundtrip_guarded", "Pyro.C19.C19_unguarded_fails",
             "Pyro.C19.C19_roundtrip_unguarded_false", "Pyro.C19.C19_gen_facts"]
-SUITES = ["parse", "eq", "int"]
+SUITES = ["parse", "eq", "int", "proxy"]
 RULE = ("strings generated from the URI grammar (three protocols in random letter case; object names with @ and "
         "punctuation; tag lists with empty/duplicate/@ tags; hostnames, IPv4, bracketed IPv6 with garbage, empty and "
         "socket-prefix-like hosts; ports in every ASCII form int() accepts or refuses; default ports with several "
@@ -113,6 +114,7 @@ def _facts():
     hret = [n for n in ast.walk(fns["__hash__"]) if isinstance(n, ast.Return)]
     if len(ret) != 1 or len(hret) != 1 or not eqret:
         raise RuntimeError("unexpected shape of __getstate__/__eq__/__hash__")
+    pf = _proxy_facts()
     nsport = config.NS_PORT
     if type(nsport) is not int or nsport < 0:
         raise RuntimeError("config.NS_PORT default is not a non-negative int: %r" % (nsport,))
@@ -122,9 +124,45 @@ def _facts():
         "init_guards": init_guards, "loc_guards": loc_guards, "calls": prefixes,
         "getstate": ast.unparse(ret[0].value), "eq": [ast.unparse(r.value) for r in eqret],
         "hash": ast.unparse(hret[0].value), "nsport": nsport,
+        "proxy": pf,
         "guard_host": _norm(GUARD_HOST_SRC) in loc_guards,
         "guard_tags": _norm(GUARD_TAGS_SRC) in init_guards,
     }
+
+
+def _proxy_facts():
+    """how the proxy state path carries the uri (client.py): facts behind C19_transport / C19_proxy_history"""
+    from Pyro5 import client
+    tree = ast.parse(open(client.__file__).read())
+    cls = [n for n in tree.body if isinstance(n, ast.ClassDef) and n.name == "Proxy"]
+    if not cls:
+        raise RuntimeError("class Proxy not found in client.py")
+    fns = {n.name: n for n in cls[0].body if isinstance(n, ast.FunctionDef)}
+    for need in ("__getstate__", "__setstate__", "__copy__"):
+        if need not in fns:
+            raise RuntimeError("Proxy.%s not found" % need)
+    rets = [n for n in ast.walk(fns["__getstate__"]) if isinstance(n, ast.Return)]
+    if len(rets) != 1 or not isinstance(rets[0].value, ast.Tuple) or not rets[0].value.elts:
+        raise RuntimeError("Proxy.__getstate__ does not return one tuple")
+    head = ast.unparse(rets[0].value.elts[0])
+    getstate_stmts = len(fns["__getstate__"].body)
+    writers = []        # "method attr = value" for every assignment to a self attribute whose name mentions the uri
+    for name, fn in fns.items():
+        for n in ast.walk(fn):
+            targets = []
+            if isinstance(n, ast.Assign):
+                for t in n.targets:
+                    targets += t.elts if isinstance(t, ast.Tuple) else [t]
+                val = ast.unparse(n.value)
+            elif isinstance(n, (ast.AugAssign, ast.AnnAssign)) and n.value is not None:
+                targets, val = [n.target], ast.unparse(n.value)
+            for t in targets:
+                if isinstance(t, ast.Attribute) and isinstance(t.value, ast.Name) and t.value.id == "self" \
+                        and "uri" in t.attr.lower():
+                    writers.append("%s %s = %s" % (name, t.attr, val))
+    copy_body = [ast.unparse(st) for st in fns["__copy__"].body]
+    return {"head": head, "getstate_stmts": getstate_stmts, "writers": sorted(writers),
+            "copy_uses_state": "p.__setstate__(self.__getstate__())" in copy_body}
 
 
 def extract():
@@ -147,6 +185,13 @@ def getstateTuple : String := {_lean_str(f['getstate'])}
 def eqReturns : List String := {_lean_list(f['eq'])}
 def hashReturn : String := {_lean_str(f['hash'])}
 def nsPortDefault : Nat := {f['nsport']}
+/-- client.py, class Proxy: first element of the tuple returned by __getstate__ ; number of statements of __getstate__ -/
+def proxyStateHead : String := {_lean_str(f['proxy']['head'])}
+def proxyGetstateStmts : Nat := {f['proxy']['getstate_stmts']}
+/-- every assignment "method attr = value" to a self attribute of Proxy whose name mentions the uri, sorted -/
+def proxyUriWriters : List String := {_lean_list(f['proxy']['writers'])}
+/-- does Proxy.__copy__ go through p.__setstate__(self.__getstate__()) ? -/
+def proxyCopyUsesState : Bool := {b(f['proxy']['copy_uses_state'])}
 /-- is the empty / "./u" host rejected after location.partition(":") ?  (fixes/C19-reparse.patch) -/
 def guardHost : Bool := {b(f['guard_host'])}
 /-- are all-empty tag sets and tags containing "@" rejected for PYROMETA ?  (fixes/C19-reparse.patch) -/
@@ -532,8 +577,9 @@ def check_transport(ctx, URI, errors, s, u, case, ns):
             try:
                 v = ser.loads(data)
                 if kind == "proxy":
-                    v = v._pyroUri
-                if not _designates(v, u):
+                    # a proxy carries the uri as text: the receiver must hold an EQUAL uri of the same shape
+                    what = c19_proxy.uri_difference(URI, v._pyroUri, u)
+                elif not _designates(v, u):
                     what = "arrives as %r" % (getattr(v, "__getstate__", lambda: v)(),)
             except errors.PyroError as x:
                 what = "cannot be rebuilt by the receiver (%s)" % x
@@ -570,6 +616,8 @@ def _corpus():
         for f in sorted(os.listdir(d)):
             if f.endswith(".json"):
                 c = json.load(open(os.path.join(d, f)))
+                if "s" not in c:        # proxy-history witnesses are run by c19_proxy.history_suite
+                    continue
                 out.append({"s": c["s"], "nsport": c.get("nsport", 9090), "corpus": f})
     return out
 
@@ -738,6 +786,8 @@ def correspondence(ctx):
     _run(ctx, "corr", ctx.n(40000, 2000000), True, ctx.n(40, 60))
     _eq_suite(ctx, ctx.n(3000, 100000))
     _int_suite(ctx, ctx.n(6000, 200000))
+    c19_proxy.history_suite(ctx, "proxy", ctx.n(600, 12000), True)
+    c19_proxy.bind_histories(ctx, ctx.n(3, 12))
 
 
 def oracle(ctx):
@@ -745,6 +795,8 @@ def oracle(ctx):
     # in search mode it runs again on fresh cases, without the model
     if ctx.search_mode:
         _run(ctx, "search", ctx.n(40000, 400000), False, 25)
+        c19_proxy.history_suite(ctx, "proxy-search", ctx.n(1500, 12000), False)
+        c19_proxy.bind_histories(ctx, ctx.n(3, 12))
 
 
 def replay(ctx, case):
@@ -753,6 +805,8 @@ def replay(ctx, case):
     if not c:
         print("replay file names no failing input:", case.get("no_longer_checks"))
         return 1
+    if c.get("history") is not None:
+        return c19_proxy.replay_history(c)
     URI, errors, config = _mods()
     old = config.NS_PORT
     config.NS_PORT = c.get("nsport", 9090)
